@@ -52,6 +52,87 @@ __all__ = [
 ]
 
 
+# --- native fast path ---------------------------------------------------------
+# Under CrossHair every Python opcode of traced code is intercepted (~200x slower).  Structural work of this
+# model (walking annotations, copying containers, dumping) never looks INSIDE symbolic leaves, so it is run
+# untraced; anything that compares / tests a symbolic leaf, and every validator of the code under test, runs
+# traced.  Outside CrossHair these helpers are no-ops.
+try:  # pragma: no cover - only meaningful inside the analysis process
+    from crosshair.core import python_type as _ch_python_type
+    from crosshair.tracers import NoTracing as _NoTracing
+    from crosshair.tracers import ResumedTracing as _ResumedTracing
+    from crosshair.tracers import is_tracing as _is_tracing
+    from crosshair.util import CrossHairValue as _CHV
+except Exception:  # noqa
+    _CHV = ()
+    _is_tracing = lambda: False  # noqa: E731
+
+
+class _Null:
+    def __enter__(self):
+        return self
+
+    def __exit__(self, *a):
+        return False
+
+
+_IN_NATIVE = [0]
+
+
+class _native:
+    """context: run the block untraced if we are inside a traced CrossHair execution"""
+
+    def __enter__(self):
+        self.cm = None
+        if _CHV and _is_tracing():
+            self.cm = _NoTracing()
+            self.cm.__enter__()
+            _IN_NATIVE[0] += 1
+        return self
+
+    def __exit__(self, *a):
+        if self.cm is not None:
+            _IN_NATIVE[0] -= 1
+            return self.cm.__exit__(*a)
+        return False
+
+
+class _traced:
+    """context: resume tracing inside a _native() block (no-op elsewhere)"""
+
+    def __enter__(self):
+        self.cm = None
+        if _CHV and _IN_NATIVE[0] > 0 and not _is_tracing():
+            self.cm = _ResumedTracing()
+            self.cm.__enter__()
+            self.saved = _IN_NATIVE[0]
+            _IN_NATIVE[0] = 0
+        return self
+
+    def __exit__(self, *a):
+        if self.cm is not None:
+            _IN_NATIVE[0] = self.saved
+            return self.cm.__exit__(*a)
+        return False
+
+
+def _sym(v):
+    return bool(_CHV) and isinstance(v, _CHV)
+
+
+def _isinst(v, typ):
+    """isinstance that also recognises CrossHair's symbolic stand-ins when running untraced"""
+    if isinstance(v, typ):
+        return True
+    if _sym(v):
+        try:
+            pt = _ch_python_type(v)
+        except Exception:  # noqa
+            return False
+        return isinstance(pt, type) and issubclass(pt, typ)
+    return False
+
+
 class _Undefined:
     def __repr__(self):
         return "PydanticUndefined"
@@ -175,7 +256,7 @@ _LEAF_ATOM_TYPES = (int, tuple)  # atoms standing for strings / ids / timestamps
 
 def _is_atom(v):
     # Opaque stand-ins for concrete leaves (see vf/h.py): ints, Fmt/U5 tuples
-    return isinstance(v, _LEAF_ATOM_TYPES) and not isinstance(v, bool)
+    return (_isinst(v, int) or isinstance(v, tuple)) and not _isinst(v, bool)
 
 
 def _resolve(ann, module_name):
@@ -226,12 +307,22 @@ def coerce(ann, v, ctx):
         raise CoercionError("no union member matches")
     if origin is typing.Literal:
         for a in typing.get_args(ann):
-            if type(v) is type(a) or (isinstance(a, str) and isinstance(v, str)):
+            if _sym(v):
+                with _traced():
+                    if isinstance(v, type(a)) and v == a:
+                        return a
+            elif type(v) is type(a) or (isinstance(a, str) and isinstance(v, str)):
                 if v == a:
                     return a
         raise CoercionError("literal mismatch")
     if origin in (list, typing.List):
         (item,) = typing.get_args(ann) or (Any,)
+        if _sym(v):
+            with _traced():
+                if isinstance(v, (list, tuple)):
+                    v = list(v)
+                else:
+                    raise CoercionError("not a list")
         if isinstance(v, (list, tuple)):
             return [coerce(item, x, ctx) for x in v]
         raise CoercionError("not a list")
@@ -261,37 +352,48 @@ def coerce(ann, v, ctx):
             if isinstance(v, ann):
                 return v
             if isinstance(v, dict):
-                return ann(**v)
+                with _traced():
+                    return ann(**v)
             if ctx.get("from_attributes") or ann.model_config.get("from_attributes"):
-                if not isinstance(v, (str, int, float, list, tuple, type(None))):
-                    return ann.model_validate(v, from_attributes=True)
+                if not isinstance(v, (str, int, float, list, tuple, type(None))) and not _sym(v):
+                    with _traced():
+                        return ann.model_validate(v, from_attributes=True)
             raise CoercionError("not a model instance")
         if ann is float:
-            if isinstance(v, bool):
+            if _isinst(v, bool):
+                if _sym(v):
+                    with _traced():
+                        return 1.0 if v else 0.0
                 return 1.0 if v else 0.0
-            if isinstance(v, float):
+            if _isinst(v, float):
                 return v
-            if isinstance(v, int):
+            if _isinst(v, int):
                 return v  # numerically equal; kept to avoid int->fp conversions
             raise CoercionError("not a number")
         if ann is int:
-            if isinstance(v, bool):
+            if _isinst(v, bool):
+                if _sym(v):
+                    with _traced():
+                        return 1 if v else 0
                 return 1 if v else 0
-            if isinstance(v, int):
+            if _isinst(v, int):
                 return v
-            if isinstance(v, float):
-                if v == v // 1:
-                    return int(v)
+            if _isinst(v, float):
+                with _traced():
+                    if v == v // 1:
+                        return int(v)
                 raise CoercionError("fractional float for int")
             raise CoercionError("not an int")
         if ann is bool:
-            if isinstance(v, bool):
+            if _isinst(v, bool):
                 return v
-            if isinstance(v, int) and (v == 0 or v == 1):
-                return v == 1
+            if _isinst(v, int):
+                with _traced():
+                    if v == 0 or v == 1:
+                        return v == 1
             raise CoercionError("not a bool")
         if ann is str:
-            if isinstance(v, str) or _is_atom(v):
+            if _isinst(v, str) or _is_atom(v):
                 return v
             raise CoercionError("not a str")
         if issubclass(ann, enum.Enum):
@@ -567,6 +669,10 @@ def _check_bounds(info, v):
         raise ValidationError("less_than")
 
 
+def _has_sym(v):
+    return _sym(v)
+
+
 def _build(self, cls, data, ctx):
     try:
         for mv in cls.__pyd_model_validators__:
@@ -576,46 +682,55 @@ def _build(self, cls, data, ctx):
         if isinstance(e, ValidationError):
             raise
         raise ValidationError(*e.args) from None
-    values = {}
-    fields_set = set()
-    used = set()
-    for fname, info in cls.model_fields.items():
-        key = info.alias if info.alias is not None else fname
-        if key in data:
-            used.add(key)
-            raw = data[key]
-            fctx = ctx
-            if info.discriminator is not None:
-                fctx = dict(ctx, discriminator=info.discriminator)
-            try:
-                v = coerce(info.annotation, raw, fctx)
-            except CoercionError as e:
-                raise ValidationError("%s: %s" % (fname, e.args[0])) from None
-            _check_bounds(info, v)
-            try:
-                for fv in cls.__pyd_field_validators__:
-                    if fname in fv.fields or "*" in fv.fields:
-                        v = fv.fn(cls, v)
-            except (ValueError, AssertionError) as e:
-                if isinstance(e, ValidationError):
-                    raise
-                raise ValidationError(*e.args) from None
-            values[fname] = v
-            fields_set.add(fname)
-        else:
-            if info.is_required():
-                raise ValidationError("%s: field required" % fname)
-            values[fname] = info.get_default()
-    extra = None
-    if cls.model_config.get("extra") == "allow":
-        extra = {k: v for k, v in data.items() if k not in used}
-    elif cls.model_config.get("extra") == "forbid":
-        for k in data:
-            if k not in used:
-                raise ValidationError("extra field %s" % k)
-    object.__setattr__(self, "__dict__", values)
-    object.__setattr__(self, "__pydantic_extra__", extra)
-    object.__setattr__(self, "__pydantic_fields_set__", fields_set)
+    with _native():
+        values = {}
+        fields_set = set()
+        used = set()
+        fvals = cls.__pyd_field_validators__
+        for fname, info in cls.model_fields.items():
+            key = info.alias if info.alias is not None else fname
+            if key in data:
+                used.add(key)
+                raw = data[key]
+                fctx = ctx
+                if info.discriminator is not None:
+                    fctx = dict(ctx, discriminator=info.discriminator)
+                try:
+                    v = coerce(info.annotation, raw, fctx)
+                except CoercionError as e:
+                    raise ValidationError("%s: %s" % (fname, e.args[0])) from None
+                if info.ge is not None or info.le is not None or info.gt is not None or info.lt is not None:
+                    if _sym(v):
+                        with _traced():
+                            _check_bounds(info, v)
+                    else:
+                        _check_bounds(info, v)
+                mine = [fv for fv in fvals if fname in fv.fields or "*" in fv.fields]
+                if mine:
+                    with _traced():
+                        try:
+                            for fv in mine:
+                                v = fv.fn(cls, v)
+                        except (ValueError, AssertionError) as e:
+                            if isinstance(e, ValidationError):
+                                raise
+                            raise ValidationError(*e.args) from None
+                values[fname] = v
+                fields_set.add(fname)
+            else:
+                if info.is_required():
+                    raise ValidationError("%s: field required" % fname)
+                values[fname] = info.get_default()
+        extra = None
+        if cls.model_config.get("extra") == "allow":
+            extra = {k: v for k, v in data.items() if k not in used}
+        elif cls.model_config.get("extra") == "forbid":
+            for k in data:
+                if k not in used:
+                    raise ValidationError("extra field %s" % k)
+        object.__setattr__(self, "__dict__", values)
+        object.__setattr__(self, "__pydantic_extra__", extra)
+        object.__setattr__(self, "__pydantic_fields_set__", fields_set)
     try:
         for mv in cls.__pyd_model_validators__:
             if mv.mode == "after":
@@ -630,7 +745,7 @@ def _build(self, cls, data, ctx):
 
 def _dump_value(v, exclude_none, by_alias, mode):
     if isinstance(v, BaseModel):
-        return _dump(v, exclude_none, None, by_alias, mode)
+        return _dump_impl(v, exclude_none, None, by_alias, mode)
     if isinstance(v, (list, tuple)):
         out = [_dump_value(x, exclude_none, by_alias, mode) for x in v]
         return out if (mode == "json" or isinstance(v, list)) else tuple(out)
@@ -642,6 +757,11 @@ def _dump_value(v, exclude_none, by_alias, mode):
 
 
 def _dump(self, exclude_none, exclude, by_alias, mode):
+    with _native():
+        return _dump_impl(self, exclude_none, exclude, by_alias, mode)
+
+
+def _dump_impl(self, exclude_none, exclude, by_alias, mode):
     cls = type(self)
     out = {}
     for fname, v in self.__dict__.items():
